@@ -192,20 +192,42 @@ theorem step_beat_keepWF {r : Raft} (hs : r.state = .leader) (hp : ProgWF r) (i 
   exact spec_of_run_congr (Live.step_leader_dispatch 2 _ r hs (Or.inl rfl) (Or.inr (Or.inl rfl)))
     (stepLeader_beat_keepWF 2 _ r rfl hp)
 
-theorem tickHeartbeat_keepWF {r : Raft} (hs : r.state = .leader) (hcq : r.cfg.checkQuorum = false)
-    (hp : ProgWF r) : Spec tickHeartbeat r (fun _ r' => ProgWF r') := by
-  unfold tickHeartbeat
-  simp only [wp, hcq, hs, Bool.false_eq_true, false_implies, true_and, and_true, implies_true]
-  have K : ∀ x : Raft, x.trk = r.trk → x.log = r.log → ProgWF x := fun x h1 h2 =>
-    hp.congr (by rw [h1]) (by rw [h2]; exact Nat.le_refl _)
-  have K2 : ∀ (x : Raft) (i : Id), x.trk = r.trk → x.log = r.log → x.state = .leader →
-      Spec (step stepFuel { typ := .beat, «from» := i }) x (fun _ mid => ProgWF mid) :=
-    fun x i h1 h2 h3 => step_beat_keepWF h3 (K x h1 h2) i
-  repeat' first
-    | exact K _ rfl rfl
-    | exact K2 _ _ rfl rfl rfl
-    | constructor
-    | intro _
+/-- marking the peers inactive keeps the progress table well-formed -/
+theorem ProgWF.clearRA {r : Raft} (hp : ProgWF r) : ProgWF (Live.clearRA r) := by
+  intro id pr hg
+  rw [Live.getProgress_clearRA] at hg
+  cases hq : r.trk.getProgress id with
+  | none => rw [hq] at hg; cases hg
+  | some pr0 =>
+    rw [hq] at hg
+    injection hg with hg
+    subst hg
+    have := hp id pr0 hq
+    show (if id = r.cfg.id then pr0 else { pr0 with recentActive := false }).match_ <
+        (if id = r.cfg.id then pr0 else { pr0 with recentActive := false }).next ∧
+      (if id = r.cfg.id then pr0 else { pr0 with recentActive := false }).next ≤ r.log.lastIndex + 1
+    split <;> exact this
+
+theorem tickHeartbeat_keepWF {r : Raft} (hs : r.state = .leader) (hx : r.leadTransferee = 0)
+    (hp : ProgWF r) : Spec tickHeartbeat r (fun _ r' => r'.state = .leader → ProgWF r') := by
+  rw [Spec.iff_runs]
+  intro u r' h
+  unfold Runs at h
+  obtain ⟨ra, ⟨he, ee, rfl⟩, hcase⟩ := Sim.tickHeartbeat_leader_inv r r' hs hx h
+  have hra : ProgWF { r with heartbeatElapsed := he, electionElapsed := ee } :=
+    hp.congr rfl (Nat.le_refl _)
+  rcases hcase with ⟨rb, hrb, hcase⟩ | ⟨r1, hbf, rfl⟩
+  · have hrb' : ProgWF rb := by
+      rcases hrb with rfl | rfl
+      · exact hra
+      · exact hra.clearRA
+    rcases hcase with rfl | ⟨res, hb⟩
+    · exact fun _ => hrb'
+    · exact fun _ => (stepLeader_beat_keepWF 2 _ rb rfl hrb').elim hb
+  · intro hl
+    have hf : r1.state = .follower := ((Live.becomeFollower_live _ 0 _).elim hbf).2.2.2.1
+    have hl' : r1.state = .leader := hl
+    rw [hf] at hl'; cases hl'
 
 /-! ### 4. MsgHup -/
 
@@ -301,14 +323,14 @@ theorem tickElection_not_leader (r : Raft) (hs : r.state ≠ .leader) :
     injection h with h; injection h with _ e; subst e
     exact hs
 
-theorem tick_keeps_prog' {r : Raft} (hcq : r.cfg.checkQuorum = false) (hp : r.state = .leader → ProgWF r) :
+theorem tick_keeps_prog' {r : Raft} (hx : r.leadTransferee = 0) (hp : r.state = .leader → ProgWF r) :
     Spec Raft.tick r (fun _ r' => r'.state = .leader → ProgWF r') := by
   unfold Raft.tick
   simp only [wp]
   constructor
   · intro hs
     have hs' : r.state = .leader := by simpa using hs
-    exact (tickHeartbeat_keepWF hs' hcq (hp hs')).mono (fun _ _ h _ => h)
+    exact tickHeartbeat_keepWF hs' hx (hp hs')
   · intro hs
     have hs' : r.state ≠ .leader := by simpa using hs
     exact (tickElection_not_leader r hs').mono (fun _ _ h hl => absurd hl h)
@@ -317,7 +339,7 @@ theorem tick_keeps_prog' {r : Raft} (hcq : r.cfg.checkQuorum = false) (hp : r.st
 theorem tick_keeps_prog {val : Val} {voters : List Id} {n : Nat} {r : Raft} {nd : Spec.Node} {msgs}
     (hinv : RaftInv val voters n r nd msgs) (hp : r.state = .leader → ProgWF r) :
     Spec Raft.tick r (fun _ r' => r'.state = .leader → ProgWF r') :=
-  tick_keeps_prog' hinv.st.cq hp
+  tick_keeps_prog' hinv.st.xfer hp
 
 /-! ### 5. MsgVote -/
 
